@@ -77,6 +77,10 @@ def check_model(res: Result, prop, batch):
     """batch: list of (meta, run, case). Lock-step comparison with the extracted model."""
     outs = core.run_model("pipeline", [c for _, _, c in batch])
     for (meta, run, _), o in zip(batch, outs):
+        if run.g.file_watch:
+            res.hist("model_scope", "skipped: watch on a non-directory (name of a directory re-used by a file before the read)")
+            continue
+        res.hist("model_scope", "compared")
         res.traces_validated += 1
         diffs = pipe.compare(run, o)
         if diffs:
